@@ -305,6 +305,27 @@ func Cols3Menu() []spec.Batch {
 	return rv
 }
 
+// FieldSetsMenu: 16 single-document segments, one per subset of the field names
+// {a,b,c,d} (item index = subset mask; item 0 has `_id` only). Every present field has a
+// stored value naming field and item, doc values, a private term with a location and the
+// shared term x. Merging ordered pairs and triples of them meets every combination of
+// field lists: equal, prefix, disjoint, interleaved names, different lengths.
+func FieldSetsMenu() []spec.Batch {
+	var rv []spec.Batch
+	names := []string{"a", "b", "c", "d"}
+	for mask := 0; mask < 16; mask++ {
+		doc := spec.Doc{ID: fmt.Sprintf("fs%02d", mask)}
+		for i, n := range names {
+			if mask&(1<<uint(i)) == 0 {
+				continue
+			}
+			doc.Fields = append(doc.Fields, dv(stored(fld(n, 2, tok("t"+n, 1, loc(1+i)), tok("x", 1+i%2)), fmt.Sprintf("v-%s-%d", n, mask), uint64(mask))))
+		}
+		rv = append(rv, spec.Batch{Docs: []spec.Doc{doc}})
+	}
+	return rv
+}
+
 // SynAMenu: the BUILD alphabet of C12 reused as merge inputs: every batch of one
 // document (items 0..14) and of two documents (items 15..239) over the 15 document kinds
 // (ordinary; 2 thesauri x 7 definition shapes). Ids are unique per item.
@@ -368,6 +389,8 @@ func menuOf1(name string) []spec.Batch {
 		return Cells1Menu()
 	case "cols3":
 		return Cols3Menu()
+	case "fsets":
+		return FieldSetsMenu()
 	case "synA":
 		return SynAMenu()
 	case "vecA":
